@@ -412,7 +412,7 @@ func TestC11(t *testing.T) {
 // (TCP_NODELAY, a pause between writes) to the real accept/receive goroutines;
 // the backends must receive exactly those messages, each intact.
 func c11Lab(t *testing.T) {
-	V.Require("lab: segmented stream relayed intact")
+	V.Require("lab: segmented stream relayed intact", "lab: a pause of about a second between two segments")
 	svc, err := newStdSvc(stdVariant{})
 	if err != nil {
 		V.HarnessError(t, "cannot start lab instance: %v", err)
@@ -484,6 +484,14 @@ func c11Lab(t *testing.T) {
 		V.Journal(t.Name()+"/lab-segments", map[string]any{"messages": n, "stream_len": L, "cuts": c11ShortCuts(cuts)})
 		s.model.learnRequest(s.model.transport(entry, "tcp"), s.ip(13), &AMsg{IsReq: true})
 		s.in.expect(wires...)
+		// how the bytes are split includes when the parts arrive: now and then the
+		// sender falls silent for about a second at one of the cuts (a slow link, a
+		// sender assembling its message in pieces)
+		pauseAt := -1
+		if len(cuts) > 0 && rapid.IntRange(0, 7).Draw(rt, "a pause of about a second at one cut") == 0 {
+			pauseAt = cuts[rapid.IntRange(0, len(cuts)-1).Draw(rt, "which cut")]
+			V.Class("lab: a pause of about a second between two segments")
+		}
 		pos := 0
 		for _, cut := range append(cuts, L) {
 			if cut <= pos {
@@ -493,11 +501,13 @@ func c11Lab(t *testing.T) {
 				failf(rt, "the proxy closed the connection in the middle of a well-formed stream (after %d of %d bytes): %v", pos, L, err)
 			}
 			pos = cut
-			if len(cuts) < 200 {
+			if cut == pauseAt {
+				time.Sleep(time.Duration(700+rapid.IntRange(0, 600).Draw(rt, "pause ms")) * time.Millisecond)
+			} else if len(cuts) < 200 {
 				time.Sleep(50 * time.Microsecond)
 			}
 		}
-		rs, err := s.in.settle(c.send, n)
+		rs, err := s.in.settle(c.sendStrict, n)
 		if _, lost := err.(labLost); lost {
 			failf(rt, "%v (stream of %d messages, %d bytes, cuts %v)", err, n, L, c11ShortCuts(cuts))
 		} else if err != nil {
@@ -668,7 +678,7 @@ func c11ReturnStreams(t *testing.T, s *stdSvc) {
 				time.Sleep(150 * time.Microsecond)
 			}
 		}
-		rs, err := s.in.settle(conn.send, len(exps))
+		rs, err := s.in.settle(conn.sendStrict, len(exps))
 		if err != nil && strings.Contains(err.Error(), "could not send the barrier") {
 			// the hop's write failed: the proxy has closed its connection although
 			// every byte it was sent belongs to a well-formed message
